@@ -235,3 +235,11 @@ def ghost(name, *args):
 
 def join_lf_opt(xs):
     return "\n".join(xs)
+
+
+def join_sep(sep, xs):
+    return sep.join(xs)
+
+
+def ghost_val(name, _ty, *args):
+    raise NotImplementedError("ghost functions have no run-time reading")
